@@ -124,7 +124,19 @@ pub fn check_program(prog: &Program, rendered: &[Rendered], visit: Option<(&str,
     if let Some((file, other)) = visit {
         let uri = ws.uri(file);
         let main = ws.uri(&rendered[0].file);
-        let res = lsp.did_open(&uri, other).and_then(|_| lsp.barrier(&main)).and_then(|_| lsp.did_close(&uri));
+        let disk = rendered.iter().find(|x| x.file == file).map(|x| x.text.clone()).unwrap_or_default();
+        let res = lsp.did_open(&uri, other).and_then(|_| lsp.barrier(&main)).and_then(|_| {
+            if tape.chance(1, 2) {
+                r.label("visited-unsaved-variant:closed");
+                lsp.did_close(&uri)
+            } else {
+                // Back to the text on disk by one didChange with two ranged changes in document order.
+                r.label("visited-unsaved-variant:changed-back-in-two-edits");
+                let edits = crate::lspcheck::two_edits(other, &disk, (tape.raw(), tape.raw()));
+                let changes: Vec<(Option<((u32, u32), (u32, u32))>, String)> = edits.into_iter().map(|(rg, t)| (Some(rg), t)).collect();
+                lsp.did_change(&uri, &changes)
+            }
+        });
         if let Err(e) = res {
             r.fail(lsp_err(e, "open / close of an unsaved variant"));
             return;
@@ -248,8 +260,29 @@ pub fn check_program(prog: &Program, rendered: &[Rendered], visit: Option<(&str,
                         r.label("references-across-modules");
                     }
                 }
-                Some(Occ::BindSite(_)) | Some(Occ::QualDef(_)) => {
-                    // Identifiers that are neither uses nor declarations: the statement is silent.
+                Some(Occ::BindSite(b)) => {
+                    // The binding identifier of a parameter or rec binder. Whether the server
+                    // answers here at all is left open by the statement, but whatever it returns
+                    // must lead back to this binder ("every reference returned goes back to that
+                    // declaration"): a subset of the uses bound to it.
+                    let refs = match probe.references(&rd.file, o) {
+                        Ok(d) => d,
+                        Err(f) => {
+                            r.fail(f);
+                            return;
+                        }
+                    };
+                    let want_refs: BTreeSet<(String, (usize, usize))> = tb.uses.get(&b).cloned().unwrap_or_default();
+                    if let Some(stray) = refs.iter().find(|x| !want_refs.contains(*x)) {
+                        r.fail(Failure::new(
+                            "c17:references-from-binding-site",
+                            format!("{}: find-references on the binding identifier of `{}` returns {stray:?}, which is not one of its uses {want_refs:?}", here(), prog.binders[b].name),
+                        ));
+                        return;
+                    }
+                }
+                Some(Occ::QualDef(_)) => {
+                    // The qualifier of a `use ... as q` statement: the statement is silent.
                 }
                 _ => {
                     if in_qualified.get(o).copied().unwrap_or(false) {
@@ -329,7 +362,7 @@ impl Property for C17 {
     }
     fn assumptions(&self) -> Vec<String> {
         vec![
-            "binding sites of parameters / rec binders, qualifier definitions and the `.` of a qualified name are identifiers or inside a variable node but neither uses nor declarations: nothing is asserted there".into(),
+            "qualifier definitions and the `.` of a qualified name are identifiers or inside a variable node but neither uses nor declarations: nothing is asserted there; at the binding identifier of a parameter / rec binder only soundness is asserted (what is returned are uses of that binder), not completeness".into(),
             "the questions are asked about files served from disk; one case in three first opens a module with another layout, lets the server evaluate it and closes it unsaved (C15 covers edit histories in general)".into(),
         ]
     }
